@@ -15,6 +15,7 @@ def dispatch (j : Json) : Except String Json := do
   | "lang" => handleLang op j
   | "trace" => handleTrace op j
   | "filter" => handleFilter op j
+  | "table" => handleTable op j
   | _ => throw s!"unknown model {m}"
 
 def step (line : String) : String :=
